@@ -38,7 +38,11 @@ MANIFEST = dict(
          "stop-start = q*step + r (cases r = 0 and 1 <= r < step, // and % by the step resolved by polynomial division and sign "
          "reasoning valid for every value) and must be the polynomial q resp. q+1; (7j) the text row skipper is analysed over a finite "
          "abstract domain of what each read consumed (newline / other character / chunk with or without newline) with the balance "
-         "newlines consumed - rows counted, which must be 0 at every return.",
+         "newlines consumed - rows counted, which must be 0 at every return; (7i) the file cursor of the binary slice reader is followed "
+         "along every path as a polynomial in row1, step and the row count (goto_offset = 0, skip_binary_rows(e) adds e, fread of k rows "
+         "adds k, a counted loop moves a round-independent distance per round): the first row read must be row1, consecutive reads step "
+         "rows apart, nrows reads of one row size.  (2a) also accepts a row array that a dominating test found empty or strictly "
+         "ascending in place of a numpy.unique result (rows are one-dimensional lists by the quantifier).",
     note="Not decided: element-wise equality with in-memory indexing for all table sizes (numpy indexing, libc reads and the per-column "
          "text scanner are trusted; the evaluation is exhaustive only over small model tables). Assumes positive slice steps (property "
          "quantifier). Trusted: slice.indices, numpy.unique, CPython ast, clang AST, SWIG naming.",
@@ -66,6 +70,7 @@ def run(chk):
     chk.explanation = MANIFEST["text"]
     chk.trusted = ["slice.indices", "numpy.unique", "CPython ast", "clang 14 AST", "networkx"]
     chk.assume("slice steps are positive (property quantifier)")
+    chk.assume("row lists are one-dimensional (property quantifier): a strictly ascending row array equals its numpy.unique")
     chk.floor = 40
     # public anchors must exist; private helpers may have been inlined, renamed or split
     F = {k: repo.func(U + "Recfile." + k) for k in ("read", "__getitem__")}
@@ -236,6 +241,9 @@ def _quantified(t):
 
 def _decompose(t, truth, out, elementwise=False):
     """append (atom, truth, universal-over-elements?) facts implied by `t` having the given truth value"""
+    if isinstance(t, ast.Call) and isinstance(t.func, ast.Name) and t.func.id == "bool" and len(t.args) == 1 and not t.keywords:
+        _decompose(t.args[0], truth, out, elementwise)      # bool(X) is true exactly when X is
+        return
     if isinstance(t, ast.UnaryOp) and isinstance(t.op, ast.Not) or (elementwise and isinstance(t, ast.UnaryOp) and isinstance(t.op, ast.Invert)):
         _decompose(t.operand, not truth, out, elementwise)
         return
@@ -1401,8 +1409,169 @@ def r02_2(chk, repo, F, S):
 _PASSTHROUGH = ("astype", "asarray", "array", "asanyarray", "ascontiguousarray", "copy", "atleast_1d", "ravel", "flatten", "view")
 
 
-def _unique_status(cfg, view, IN, at, e, depth=0):
-    """is the value of expression e at CFG node `at` a numpy.unique result on every path?  'yes' / 'no' / 'unknown'"""
+class _SortedCtx(object):
+    """what is needed to decide whether a value is a distinct ascending row array at a CFG node"""
+
+    def __init__(self, repo, fi, cfg, view, IN):
+        self.repo, self.fi, self.cfg, self.view, self.IN = repo, fi, cfg, view, IN
+        self._guards = {}
+
+    def guard_edges(self, name):
+        """{(branch id, label)}: branch outcomes under which the array called `name` is known to be empty, to have one element, or to be
+        strictly ascending (then it has no repeats and numpy.unique would return an equal array)"""
+        if name not in self._guards:
+            out = set()
+            for b in self.cfg.nodes:
+                if b.kind == "branch" or (b.kind == "loop" and isinstance(b.ast, ast.While)):
+                    for lab in ("T", "F"):
+                        if any(_ascending_fact(f, name) for f in _guard_facts(self.repo, self.fi, b.ast.test, lab == "T")):
+                            out.add((b.id, lab))
+            self._guards[name] = out
+        return self._guards[name]
+
+    def reaches_unguarded(self, d, at, name):
+        """is there a path from definition node d of `name` to node `at` that neither redefines `name` nor crosses one of its guard edges?"""
+        guards = self.guard_edges(name)
+        g = self.view.g
+        seen = set()
+        todo = [d]
+        while todo:
+            i = todo.pop()
+            for j in g.successors(i):
+                labs = {l for l in g[i][j]["labels"] if (i, l) not in guards}
+                if not labs or j not in self.view.reach:
+                    continue
+                if j == at.id:
+                    return True
+                if j in seen:
+                    continue
+                seen.add(j)
+                if name in self.cfg.defs_uses(self.cfg.node(j))[0]:
+                    continue
+                todo.append(j)
+        return False
+
+
+def _pred_inline(repo, fi, call):
+    """`call` is a call of a helper of the repository whose body is one returned expression (after forward substitution of its
+    temporaries): that expression with the call's arguments in place of the parameters; else None"""
+    d = dotted_name(call.func)
+    if d is None or any(k.arg is None for k in call.keywords) or any(isinstance(a, ast.Starred) for a in call.args):
+        return None
+    callee = None
+    parts = d.split(".")
+    mod = fi.module.name if fi.module is not None else None
+    if len(parts) == 2 and parts[0] in ("self", "cls", fi.cls) and fi.cls and mod:
+        callee = repo.funcs.get("%s.%s.%s" % (mod, fi.cls, parts[1]))
+    elif len(parts) == 1 and mod:
+        callee = repo.funcs.get("%s.%s" % (mod, parts[0]))
+    if callee is None or callee.node is fi.node:
+        return None
+    body = [s for s in callee.node.body if not (isinstance(s, ast.Expr) and isinstance(s.value, ast.Constant))]
+    if not body or not isinstance(body[-1], ast.Return) or body[-1].value is None:
+        return None
+    # guard clauses `if T: return True / False` in front of the final return are folded into it: T or rest / (not T) and rest
+    clauses = []
+    for st in body[:-1]:
+        if isinstance(st, ast.If) and not st.orelse and len(st.body) == 1 and isinstance(st.body[0], ast.Return) \
+                and isinstance(st.body[0].value, ast.Constant) and isinstance(st.body[0].value.value, bool):
+            clauses.append((st.test, st.body[0].value.value))
+        elif clauses or not (isinstance(st, ast.Assign) and len(st.targets) == 1 and isinstance(st.targets[0], ast.Name)):
+            return None
+    ret = body[-1].value
+    for t, val in reversed(clauses):
+        ret = ast.BoolOp(op=ast.Or(), values=[t, ret]) if val else ast.BoolOp(op=ast.And(), values=[ast.UnaryOp(op=ast.Not(), operand=t), ret])
+    params = [p for p in callee.params if not p.startswith("*")]
+    if len(params) != len(callee.params):
+        return None
+    static = any(norm(x) in ("staticmethod", "classmethod") for x in callee.node.decorator_list)
+    if callee.cls and not any(norm(x) == "staticmethod" for x in callee.node.decorator_list):
+        params = params[1:]
+    if callee.cls and len(parts) == 1 and not static:
+        return None
+    binds = dict(zip(params, call.args))
+    if len(call.args) > len(params):
+        return None
+    for k in call.keywords:
+        if k.arg not in params or k.arg in binds:
+            return None
+        binds[k.arg] = k.value
+    for p in params:
+        if p not in binds:
+            if p not in callee.defaults:
+                return None
+            binds[p] = callee.defaults[p]
+    if any(not isinstance(v, (ast.Name, ast.Attribute, ast.Constant)) for v in binds.values()):
+        return None
+    e = rules.expand(ret, callee.node)
+    bound = {x.id for x in ast.walk(e) if isinstance(x, ast.Name) and isinstance(x.ctx, ast.Store)}
+    if bound & set(binds):
+        return None
+
+    class Sub(ast.NodeTransformer):
+        def visit_Name(self, n):
+            return ast.copy_location(_copy_ast(binds[n.id]), n) if isinstance(n.ctx, ast.Load) and n.id in binds else n
+    return ast.fix_missing_locations(Sub().visit(e))
+
+
+def _copy_ast(x):
+    import copy
+    return copy.deepcopy(x)
+
+
+def _guard_facts(repo, fi, test, truth, depth=0):
+    """canonical facts implied by `test` having the given truth value; calls of one-expression predicate helpers are looked into.
+    Each fact is given as written and with the temporaries of fi substituted."""
+    raw = []
+    _decompose(test, truth, raw)
+    out = []
+    for t, tr, ew in raw:
+        inl = _pred_inline(repo, fi, t) if (not ew and isinstance(t, ast.Call) and depth < 3) else None
+        if inl is not None:
+            out.extend(_guard_facts(repo, fi, inl, tr, depth + 1))
+            continue
+        for fn in (None, fi.node):
+            f = _canon(t, tr, fn) + (("all",) if ew else ())
+            if f not in out:
+                out.append(f)
+        if ew and tr and isinstance(t, ast.GeneratorExp):
+            out.append(("gen", t, "", "all"))
+    return out
+
+
+def _ascending_fact(f, v):
+    """does canonical fact f say that array v is empty, has a single element, or is strictly ascending (each element greater than
+    its predecessor)?  A strictly ascending one-dimensional array is sorted and free of repeats: numpy.unique returns an equal array."""
+    if _empty_fact(f, v):
+        return True
+    op, l, r = f[0], f[1], f[2]
+    sizes = (v + ".size", "len(%s)" % v, v + ".shape[0]")
+    if (op == "==" and ((l in sizes and r == "1") or (r in sizes and l == "1"))) or (op == "<" and l in sizes and r == "2") or \
+            (op == "<=" and l in sizes and r == "1"):
+        return True
+    if len(f) < 4:
+        return False
+    diffs = ("numpy.diff(%s)" % v, "np.diff(%s)" % v, "%s[1:] - %s[:-1]" % (v, v))
+    if op == "<" and l == v + "[:-1]" and r == v + "[1:]":
+        return True
+    if (op == "<" and l == "0" and r in diffs) or (op == "<=" and l == "1" and r in diffs):
+        return True
+    if op == "gen":
+        # all(a < b for a, b in zip(v[:-1], v[1:]))  /  zip(v, v[1:])
+        g = l
+        if len(g.generators) == 1 and not g.generators[0].ifs and isinstance(g.generators[0].target, ast.Tuple) and len(g.generators[0].target.elts) == 2 \
+                and isinstance(g.generators[0].iter, ast.Call) and norm(g.generators[0].iter.func) == "zip" and len(g.generators[0].iter.args) == 2:
+            a, b = (norm(x) for x in g.generators[0].target.elts)
+            za, zb = (norm(x) for x in g.generators[0].iter.args)
+            if za in (v, v + "[:-1]") and zb == v + "[1:]" and isinstance(g.elt, ast.Compare):
+                return _canon(g.elt, True)[:3] == ("<", a, b)
+    return False
+
+
+def _unique_status(ctx, at, e, depth=0):
+    """is the value of expression e at CFG node `at`, on every path, the distinct values of the request in ascending order -- a
+    numpy.unique result, or an array that a dominating test found empty / strictly ascending?  'yes' / 'no' / 'unknown'"""
+    cfg = ctx.cfg
     if depth > 8:
         return "unknown"
     if isinstance(e, ast.Call):
@@ -1411,34 +1580,70 @@ def _unique_status(cfg, view, IN, at, e, depth=0):
             return "yes"
         if nm in ("sorted", "sort") and e.args and isinstance(e.args[0], ast.Call) and call_name(e.args[0]) in ("set", "unique", "frozenset"):
             return "yes"
+        if nm == "flatnonzero" and len(e.args) == 1 and not e.keywords:
+            return "yes"               # positions of the set elements of a mask: ascending, each once
         if nm in _PASSTHROUGH:
             inner = e.func.value if isinstance(e.func, ast.Attribute) and not (isinstance(e.func.value, ast.Name) and e.func.value.id in ("numpy", "np")) \
                 else (e.args[0] if e.args else None)
             if inner is None:
                 return "unknown"
-            return _unique_status(cfg, view, IN, at, inner, depth + 1)
+            return _unique_status(ctx, at, inner, depth + 1)
         return "unknown"
+    if isinstance(e, ast.Subscript) and norm(e.slice) == "0" and _is_mask_positions(_follow_single(ctx, at, e.value)):
+        return "yes"                   # numpy.where(mask)[0] / mask.nonzero()[0]
     if isinstance(e, (ast.List, ast.Tuple, ast.Constant)):
         return "no"
     if isinstance(e, ast.Name):
-        defs = IN.get(at.id, {}).get(e.id)
+        defs = ctx.IN.get(at.id, {}).get(e.id)
         if not defs:
             return "unknown"
         res = set()
         for d in defs:
+            if not ctx.reaches_unguarded(d, at, e.id):
+                # every way from this definition to here passes a test that found the array empty or strictly ascending
+                res.add("yes" if d != cfg.entry.id else "unknown")      # (the caller's own object: its type is not known)
+                continue
             if d == cfg.entry.id:
                 res.add("no")          # the caller's own object
                 continue
             dn = cfg.node(d)
             a = dn.ast
             if dn.kind == "stmt" and isinstance(a, ast.Assign) and len(a.targets) == 1 and isinstance(a.targets[0], ast.Name):
-                res.add(_unique_status(cfg, view, IN, dn, a.value, depth + 1))
+                res.add(_unique_status(ctx, dn, a.value, depth + 1))
+            elif dn.kind == "stmt" and isinstance(a, ast.Assign) and len(a.targets) == 1 and isinstance(a.targets[0], (ast.Tuple, ast.List)) \
+                    and len(a.targets[0].elts) == 1 and _is_mask_positions(a.value):
+                res.add("yes")         # (v,) = numpy.where(mask)
             else:
                 res.add("unknown")
         if "no" in res:
             return "no"
         return "yes" if res == {"yes"} else "unknown"
     return "unknown"
+
+
+def _is_mask_positions(e):
+    """numpy.where(mask) / numpy.nonzero(mask) / mask.nonzero(): the tuple whose (only) element lists the positions of the set elements
+    of a one-dimensional mask in ascending order, each once"""
+    if not isinstance(e, ast.Call) or e.keywords:
+        return False
+    nm = call_name(e)
+    lib = isinstance(e.func, ast.Attribute) and isinstance(e.func.value, ast.Name) and e.func.value.id in ("numpy", "np")
+    if nm in ("where", "nonzero") and lib and len(e.args) == 1:
+        return True
+    return nm == "nonzero" and isinstance(e.func, ast.Attribute) and not lib and not e.args
+
+
+def _follow_single(ctx, at, e):
+    """e, or the value assigned to it when e is a name with a single reaching plain assignment"""
+    if isinstance(e, ast.Name):
+        defs = ctx.IN.get(at.id, {}).get(e.id) or ()
+        if len(defs) == 1:
+            d = next(iter(defs))
+            if d != ctx.cfg.entry.id:
+                a = ctx.cfg.node(d).ast
+                if isinstance(a, ast.Assign) and len(a.targets) == 1 and isinstance(a.targets[0], ast.Name):
+                    return a.value
+    return e
 
 
 def _min_forms(v):
@@ -1486,8 +1691,9 @@ def _r02_2_structural(chk, repo, fi):
         if isinstance(r.ast.value, ast.Name) and ("is", r.ast.value.id, "None") in facts:
             continue      # `return rows` under `rows is None`
         final.append(r)
+    ctx = _SortedCtx(repo, fi, cfg, view, IN)
     for r in final:
-        st = _unique_status(cfg, view, IN, r, r.ast.value)
+        st = _unique_status(ctx, r, r.ast.value)
         v = norm(r.ast.value)
         # in-place stores into the returned array after de-duplication
         clobber = False
@@ -1503,7 +1709,8 @@ def _r02_2_structural(chk, repo, fi):
                         if isinstance(tg, ast.Subscript) and norm(tg.value) == v and view.reaches(dn, n) and view.reaches(n, r):
                             clobber = True
         chk.ob("R02.2a", fi.qualname + "::returns-unique-result", None if st == "unknown" else (st == "yes" and not clobber), fi.where(r.ast),
-               "the value returned (`%s`) is a numpy.unique result on every path, not modified afterwards" % v)
+               "the value returned (`%s`) is a numpy.unique result on every path (or was found empty / strictly ascending by a test on the way, "
+               "so that numpy.unique would return an equal array), not modified afterwards" % v)
     if not final:
         chk.ob("R02.2a", fi.qualname + "::returns-unique-result", None, fi.where(), "no return of a row list found")
         return
@@ -1623,31 +1830,193 @@ def r02_3(chk, repo, F, S):
         _r02_3_structural(chk, repo, F)
 
 
+_FILE_NAMES = ("self.dtype.names", "self.colnames", "numpy.array(self.dtype.names)", "list(self.dtype.names)", "tuple(self.dtype.names)",
+               "self.colnames.tolist()", "list(self.colnames)")
+
+
+def _is_positions_map(v, fn):
+    """v builds a dict that maps each field name of the file's dtype to its position:
+    {name: i for i, name in enumerate(NAMES)}, {NAMES[i]: i for i in range(len(NAMES))}, dict(zip(NAMES, range(n) / numpy.arange(n))),
+    dict((name, i) for i, name in enumerate(NAMES))"""
+    def names(e):
+        return rules.xnorm(e, fn) in _FILE_NAMES
+
+    def counter(e):
+        return isinstance(e, ast.Call) and call_name(e) in ("range", "arange", "count") and len(e.args) <= 1 and not \
+            [k for k in e.keywords if k.arg != "dtype"] and (e.args or call_name(e) == "count")
+
+    def comp(key, val, gens):
+        if len(gens) != 1 or gens[0].ifs or gens[0].is_async:
+            return False
+        g = gens[0]
+        if isinstance(val, ast.Call) and call_name(val) == "int" and len(val.args) == 1:
+            val = val.args[0]
+        if isinstance(g.iter, ast.Call) and norm(g.iter.func) == "enumerate" and len(g.iter.args) == 1 and not g.iter.keywords \
+                and isinstance(g.target, ast.Tuple) and len(g.target.elts) == 2 and names(g.iter.args[0]):
+            return norm(val) == norm(g.target.elts[0]) and norm(key) == norm(g.target.elts[1]) and isinstance(val, ast.Name) and isinstance(key, ast.Name)
+        if isinstance(g.iter, ast.Call) and call_name(g.iter) == "range" and len(g.iter.args) == 1 and isinstance(g.target, ast.Name):
+            return norm(val) == g.target.id and isinstance(key, ast.Subscript) and names(key.value) and norm(key.slice) == g.target.id
+        if isinstance(g.iter, ast.Call) and norm(g.iter.func) == "zip" and len(g.iter.args) == 2 and isinstance(g.target, ast.Tuple) and len(g.target.elts) == 2:
+            a, b = g.iter.args
+            ta, tb = (norm(x) for x in g.target.elts)
+            return (names(a) and counter(b) and norm(key) == ta and norm(val) == tb) or (names(b) and counter(a) and norm(key) == tb and norm(val) == ta)
+        return False
+
+    v = rules.expand(v, fn)
+    if isinstance(v, ast.DictComp):
+        return comp(v.key, v.value, v.generators)
+    if isinstance(v, ast.Call) and norm(v.func) == "dict" and len(v.args) == 1 and not v.keywords:
+        a = v.args[0]
+        if isinstance(a, ast.Call) and norm(a.func) == "zip" and len(a.args) == 2 and not a.keywords:
+            return names(a.args[0]) and counter(a.args[1])
+        if isinstance(a, (ast.GeneratorExp, ast.ListComp)) and isinstance(a.elt, ast.Tuple) and len(a.elt.elts) == 2:
+            return comp(a.elt.elts[0], a.elt.elts[1], a.generators)
+    return False
+
+
+def _name_tables(repo, cls="Recfile"):
+    """attributes `self.X` of the class that hold a name -> column position table: every assignment to the attribute in the class builds
+    such a table from the field names of the file's dtype or resets it to an empty dict / None, and every method that sets self.dtype
+    to a dtype also builds the table (so that the table cannot go stale)"""
+    builds, other, sets_dtype = {}, {}, set()
+    for q, f in repo.funcs.items():
+        if not q.startswith(U + cls + ".") or f.cls != cls:
+            continue
+        for x in walk_no_nested(f.node):
+            if not isinstance(x, (ast.Assign, ast.AugAssign, ast.AnnAssign)):
+                continue
+            tgts = x.targets if isinstance(x, ast.Assign) else [x.target]
+            for t in tgts:
+                for tt in rules._flat_targets(t):
+                    base = tt
+                    while isinstance(base, ast.Subscript):
+                        base = base.value
+                    d = dotted_name(base) or ""
+                    if not d.startswith("self.") or d.count(".") != 1:
+                        continue
+                    if d == "self.dtype" and tt is base:
+                        if not (isinstance(x, ast.Assign) and isinstance(x.value, ast.Constant) and x.value.value is None):
+                            sets_dtype.add(q)
+                        continue
+                    val = x.value if isinstance(x, ast.Assign) and tt is t and len(tgts) == 1 else None
+                    if val is not None and _is_positions_map(val, f.node):
+                        builds.setdefault(d, set()).add(q)
+                    elif val is not None and (norm(val) in ("{}", "dict()", "None")):
+                        pass
+                    else:
+                        other.setdefault(d, set()).add(q)
+    return sorted(d for d, qs in builds.items() if d not in other and sets_dtype <= qs)
+
+
+def _table_lookup(e, key, tables, fn):
+    """e is <table>[key] for one of the name -> position tables and the parameter `key`"""
+    return isinstance(e, ast.Subscript) and isinstance(e.ctx, ast.Load) and rules.xnorm(e.value, fn) in tables and norm(e.slice) == key
+
+
+def _position_of_name(e, key, tables, fn):
+    """the expression is the position of `key` among the file's field names: <table>[key], int(...) of it, or
+    numpy.where(NAMES == key)[0][0]"""
+    e = rules.expand(e, fn)
+    if isinstance(e, ast.Call) and call_name(e) in ("int", "int64", "intp") and len(e.args) == 1 and not e.keywords:
+        e = e.args[0]
+    if _table_lookup(e, key, tables, fn):
+        return True
+    if isinstance(e, ast.Subscript) and norm(e.slice) == "0" and isinstance(e.value, ast.Subscript) and norm(e.value.slice) == "0":
+        w = e.value.value
+        if _is_mask_positions(w):
+            c = w.args[0] if w.args else w.func.value
+            if isinstance(c, ast.Compare) and len(c.ops) == 1 and isinstance(c.ops[0], ast.Eq):
+                l, r = norm(c.left), norm(c.comparators[0])
+                return (l in _FILE_NAMES and r == key) or (r in _FILE_NAMES and l == key)
+    return False
+
+
+def _is_name_lookup(repo, fi, e, elem, tables, depth=0):
+    """expression e is the column number of the name `elem` (text): self.get_colnum(elem), <table>[elem], or a call of a helper of the
+    class all of whose returns are such look-ups of its parameter"""
+    if isinstance(e, ast.Call) and call_name(e) in ("int", "int64") and len(e.args) == 1 and not e.keywords:
+        e = e.args[0]
+    if isinstance(e, ast.Subscript):
+        return rules.xnorm(e.value, fi.node) in tables and norm(e.slice) == elem
+    if not isinstance(e, ast.Call) or len(e.args) != 1 or e.keywords or norm(e.args[0]) != elem:
+        return False
+    callee = _self_callee(repo, e, fi.cls or "Recfile")
+    if callee is None or len(callee.params) != 2:
+        return False
+    if callee.name == "get_colnum":
+        return True
+    if depth > 2:
+        return False
+    rets = [x for x in walk_no_nested(callee.node) if isinstance(x, ast.Return)]
+    return bool(rets) and all(r.value is not None and _is_name_lookup(repo, callee, rules.expand(r.value, callee.node), callee.params[1], tables, depth + 1)
+                              for r in rets) and not rules.falls_off_end(cfg_of(callee))
+
+
+def _every_name_looked_up(repo, gc, tables):
+    """every element of the request is translated and its number kept: a loop over all elements without exit or filter that stores /
+    appends / marks the number, or a comprehension / generator over all elements"""
+    params = set(gc.params[1:])
+
+    def request(e):
+        e = rules.expand(e, gc.node)
+        return any(isinstance(y, ast.Name) and y.id in params for y in ast.walk(e))
+
+    def element(it, target):
+        """(index text or None, element text) when `for target in it` visits every element of the request once, else (None, None)"""
+        if isinstance(it, ast.Call) and norm(it.func) == "range" and len(it.args) == 1 and not it.keywords and isinstance(target, ast.Name):
+            n = it.args[0]
+            src = n.value if isinstance(n, ast.Attribute) and n.attr == "size" else \
+                (n.args[0] if isinstance(n, ast.Call) and norm(n.func) == "len" and len(n.args) == 1 else None)
+            if src is not None and isinstance(src, ast.Name) and request(src):
+                return target.id, "%s[%s]" % (src.id, target.id)
+        elif isinstance(it, ast.Call) and norm(it.func) == "enumerate" and len(it.args) == 1 and not it.keywords and isinstance(target, ast.Tuple) \
+                and len(target.elts) == 2 and request(it.args[0]):
+            return norm(target.elts[0]), norm(target.elts[1])
+        elif isinstance(target, ast.Name) and not isinstance(it, ast.Call) and request(it):
+            return None, target.id
+        return None, None
+
+    for x in walk_no_nested(gc.node):
+        if isinstance(x, ast.For) and not x.orelse:
+            if any(isinstance(y, (ast.Break, ast.Continue, ast.Return)) for y in ast.walk(x)):
+                continue
+            idx, elem = element(x.iter, x.target)
+            if elem is None:
+                continue
+            for b in x.body:
+                if isinstance(b, ast.Assign) and len(b.targets) == 1 and isinstance(b.targets[0], ast.Subscript):
+                    t = b.targets[0]
+                    if idx is not None and norm(t.slice) == idx and _is_name_lookup(repo, gc, b.value, elem, tables):
+                        return True                 # out[i] = lookup(names[i])
+                    if isinstance(b.value, ast.Constant) and b.value.value is True and _is_name_lookup(repo, gc, t.slice, elem, tables):
+                        return True                 # mask[lookup(name)] = True
+                if isinstance(b, ast.Expr) and isinstance(b.value, ast.Call) and call_name(b.value) in ("append", "add") and len(b.value.args) == 1 \
+                        and _is_name_lookup(repo, gc, b.value.args[0], elem, tables):
+                    return True                     # out.append(lookup(name))
+        if isinstance(x, (ast.ListComp, ast.GeneratorExp, ast.SetComp)) and len(x.generators) == 1 and not x.generators[0].ifs:
+            _, elem = element(x.generators[0].iter, x.generators[0].target)
+            if elem is not None and _is_name_lookup(repo, gc, x.elt, elem, tables):
+                return True
+    return False
+
+
 def _r02_3_structural(chk, repo, F):
     missing = [k for k in ("get_colnums", "get_colnum", "_read_columns", "_get_colnums_to_read") if F[k] is None]
     if missing:
         chk.ob("R02.3a", "column-normalisers-found", None, F["read"].where(), "column helpers not found: %s" % missing)
         return
     gc = F["get_colnums"]
-    rets = [x for x in walk_no_nested(gc.node) if isinstance(x, ast.Return) and x.value is not None]
-    ok = bool(rets) and all(isinstance(rules.expand(r.value, gc.node), ast.Call) and call_name(rules.expand(r.value, gc.node)) == "unique" for r in rets)
-    chk.ob("R02.3a", gc.qualname + "::returns-unique-sorted", ok, gc.where(),
-           "column numbers are returned through numpy.unique (file order, no repeats)")
-    # every requested name is looked up (loop over all of colnames, store at same index)
-    loop_ok = False
-    for x in walk_no_nested(gc.node):
-        if isinstance(x, ast.For) and isinstance(x.iter, ast.Call) and call_name(x.iter) == "range" and len(x.iter.args) == 1:
-            i = norm(x.target)
-            for b in x.body:
-                if isinstance(b, ast.Assign) and isinstance(b.targets[0], ast.Subscript) and norm(b.targets[0].slice) == i \
-                        and isinstance(b.value, ast.Call) and call_name(b.value) == "get_colnum" and b.value.args \
-                        and isinstance(b.value.args[0], ast.Subscript) and norm(b.value.args[0].slice) == i \
-                        and norm(x.iter.args[0]).endswith(".size"):
-                    loop_ok = True
-        if isinstance(x, (ast.ListComp, ast.GeneratorExp)) and len(x.generators) == 1 and not x.generators[0].ifs:
-            loop_ok = loop_ok or any(isinstance(y, ast.Call) and call_name(y) == "get_colnum" for y in ast.walk(x.elt))
-    chk.ob("R02.3a", gc.qualname + "::every-name-looked-up", loop_ok, gc.where(),
-           "every requested column name is translated (loop over all names, same index on both sides)")
+    tables = _name_tables(repo)
+    cfg = cfg_of(gc)
+    view = cfg.view()
+    ctx = _SortedCtx(repo, gc, cfg, view, view.reaching_defs()[0])
+    rets = [n for n in rules.return_nodes(cfg) if n.ast.value is not None]
+    sts = [_unique_status(ctx, r, r.ast.value) for r in rets]
+    chk.ob("R02.3a", gc.qualname + "::returns-unique-sorted", bool(rets) and all(x == "yes" for x in sts), gc.where(),
+           "column numbers are returned distinct and ascending -- through numpy.unique, or as the positions of the marked entries of a "
+           "mask (file order, no repeats): %s" % sts)
+    chk.ob("R02.3a", gc.qualname + "::every-name-looked-up", _every_name_looked_up(repo, gc, tables), gc.where(),
+           "every requested column name is translated (each element of the request goes through the name lookup and its number is kept)")
     g1 = F["get_colnum"]
     cfg = cfg_of(g1)
     view = cfg.view()
@@ -1656,12 +2025,28 @@ def _r02_3_structural(chk, repo, F):
         for t, lab in rules.controlling_tests(view, n):
             if ("size == 0" in t or "not in" in t or "size < 1" in t) and lab == "T":
                 ok = True
+    key = g1.params[1] if len(g1.params) > 1 else None
+    for x in walk_no_nested(g1.node):
+        # try: ... <table>[name] ... except KeyError: raise ...   (the look-up itself raises for a name that is not a column)
+        if isinstance(x, ast.Try) and key and any(_table_lookup(y, key, tables, g1.node) for st in x.body for y in ast.walk(st)):
+            hs = [h for h in x.handlers if h.type is None or any(norm(t) in ("KeyError", "LookupError", "Exception")
+                                                                 for t in (h.type.elts if isinstance(h.type, ast.Tuple) else [h.type]))]
+            if hs and all(isinstance(h.body[-1], ast.Raise) for h in x.handlers):
+                ok = True
+    if not ok and key:
+        # a bare <table>[name] outside any try statement raises KeyError by itself
+        in_try = {id(y) for x in walk_no_nested(g1.node) if isinstance(x, ast.Try) for st in x.body for y in ast.walk(st)}
+        ok = any(_table_lookup(y, key, tables, g1.node) and id(y) not in in_try for y in walk_no_nested(g1.node))
     chk.ob("R02.3b", g1.qualname + "::unknown-name-raises", ok, g1.where(), "an unknown column name raises")
     rets = [x for x in walk_no_nested(g1.node) if isinstance(x, ast.Return) and x.value is not None]
     ok = bool(rets) and all(norm(r.value) in ("w[0]", "int(w[0])") for r in rets)
     cmp_ok = any(isinstance(x, ast.Compare) and norm(x) in ("self.colnames == colname", "colname == self.colnames") for x in ast.walk(g1.node))
-    chk.ob("R02.3b", g1.qualname + "::position-of-equal-name", ok and cmp_ok, g1.where(),
-           "the column number is the position where the stored names equal the requested name")
+    ok = ok and cmp_ok
+    if not ok and key and rets:
+        ok = all(_position_of_name(r.value, key, tables, g1.node) for r in rets)
+    chk.ob("R02.3b", g1.qualname + "::position-of-equal-name", ok, g1.where(),
+           "the column number is the position where the stored names equal the requested name (search of the name array, or a look-up "
+           "in a table that maps each name of the file's dtype to its position)")
     # _read_columns: output dtype is built from the file descr at the (sorted) column numbers, in that order
     rcols = F["_read_columns"]
     ok = False
@@ -1708,18 +2093,7 @@ def r02_4(chk, repo, S):
         chk.analysed_unit(fi.qualname)
         cfg = cfg_of(fi)
         view = cfg.view()
-        merges = []   # (node, merged var, other var)
-        for n in cfg.nodes:
-            a = n.ast
-            if n.kind == "stmt" and isinstance(a, ast.Assign) and len(a.targets) == 1 and isinstance(a.targets[0], ast.Name) and a.targets[0].id in SYN:
-                t = a.targets[0].id
-                o = SYN[1 - SYN.index(t)]
-                facts = _node_facts(view, n)
-                if isinstance(a.value, ast.Name) and a.value.id == o and \
-                        (("is", t, "None") in facts or ("falsy", t, "") in facts or ("isnot", o, "None") in facts or ("truthy", o, "") in facts):
-                    merges.append((n, t, o, False))
-                elif _is_merge_expr(a.value, t, o):
-                    merges.append((n, t, o, True))
+        merges = _synonym_merges(cfg, view)   # (node, merged var, other var, unconditional)
         for n in cfg.nodes:
             if n.ast is None or any(n is m[0] for m in merges):
                 continue
@@ -1956,6 +2330,119 @@ def _r02_5_brackets_structural(chk, repo, F):
                            "bracket access expands slices to row lists exactly for text files (%s)" % vals)
 
 
+def _synonym_merges(cfg, view):
+    """[(node, merged synonym, other synonym, unconditional?)]: assignments that merge the fields= / columns= synonyms into one of them"""
+    merges = []
+    for n in cfg.nodes:
+        a = n.ast
+        if n.kind == "stmt" and isinstance(a, ast.Assign) and len(a.targets) == 1 and isinstance(a.targets[0], ast.Name) and a.targets[0].id in SYN:
+            t = a.targets[0].id
+            o = SYN[1 - SYN.index(t)]
+            facts = _node_facts(view, n)
+            if isinstance(a.value, ast.Name) and a.value.id == o and \
+                    (("is", t, "None") in facts or ("falsy", t, "") in facts or ("isnot", o, "None") in facts or ("truthy", o, "") in facts):
+                merges.append((n, t, o, False))
+            elif _is_merge_expr(a.value, t, o):
+                merges.append((n, t, o, True))
+    return merges
+
+
+def _fast_path_guarded(repo, rd, cfg, view, n):
+    """(ok, text): do the branch outcomes that control CFG node n of Recfile.read establish that the file is binary, that all rows and
+    that all columns are requested?  The tests are taken apart after forward substitution of the temporaries they mention, so it does
+    not matter whether the three conditions sit in one test, in nested tests or in named flags.
+      binary:    not self.is_ascii
+      all rows:  R is None / R.size == self.nrows (R normalised by _get_rows2read: distinct rows in range), or a disjunction of these;
+                 `rows is None` also before normalisation (the normaliser maps None, and only None, to None)
+      all cols:  C is None / C.size == self.ncols for the column numbers C got from _get_colnums_to_read, a disjunction of these, or
+                 `<merged column request> is None` after the fields= / columns= synonyms were merged (or both of them None)"""
+    IN, _ = view.reaching_defs()
+    merges = _synonym_merges(cfg, view)
+
+    def from_call(b, name, callee, pos):
+        """every definition of `name` reaching branch b is the (pos-th) result of self.<callee>(...)"""
+        defs = IN.get(b.id, {}).get(name) or ()
+        if not defs:
+            return False
+        for d in defs:
+            if d == cfg.entry.id:
+                return False
+            a = cfg.node(d).ast
+            if not (isinstance(a, ast.Assign) and len(a.targets) == 1 and isinstance(a.value, ast.Call) and call_name(a.value) == callee
+                    and (dotted_name(a.value.func) or "").startswith("self.")):
+                return False
+            t = a.targets[0]
+            if pos is None:
+                if not (isinstance(t, ast.Name) and t.id == name):
+                    return False
+            elif not (isinstance(t, ast.Tuple) and len(t.elts) > pos and isinstance(t.elts[pos], ast.Name) and t.elts[pos].id == name):
+                return False
+        return True
+
+    def rows_name(b, v, normalised):
+        if from_call(b, v, "_get_rows2read", None):
+            return True
+        return not normalised and v == "rows" and v in rd.params
+
+    def kind(b, f):
+        """'binary' / 'rows' / 'cols' / None for one canonical fact holding on the controlling edge of branch b"""
+        op, l, r = f[0], f[1], f[2]
+        if (op == "falsy" and l == "self.is_ascii") or (op == "is" and l == "self.delim" and r == "None"):
+            return "binary"
+        if op == "is" and r == "None":
+            if rows_name(b, l, False):
+                return "rows"
+            if from_call(b, l, "_get_colnums_to_read", 0):
+                return "cols"
+            if l in SYN and any(t == l and (view.dominates(m, b) or _merge_guard_dominates(view, m, b)) for m, t, _, _ in merges):
+                return "cols"
+        if op == "==":
+            for x, y in ((l, r), (r, l)):
+                if x.endswith(".size") or (x.startswith("len(") and x.endswith(")")):
+                    v = x[:-5] if x.endswith(".size") else x[4:-1]
+                    if y in _NROWS and rows_name(b, v, True):
+                        return "rows"
+                    if y in ("self.ncols", "self.colnames.size", "len(self.colnames)", "len(self.dtype.names)") and from_call(b, v, "_get_colnums_to_read", 0):
+                        return "cols"
+        return None
+
+    def kinds_of(b, t, truth, depth=0):
+        """kinds established by expression t having the given truth value"""
+        if isinstance(t, ast.UnaryOp) and isinstance(t.op, ast.Not):
+            return kinds_of(b, t.operand, not truth, depth)
+        if isinstance(t, ast.Call) and isinstance(t.func, ast.Name) and t.func.id == "bool" and len(t.args) == 1 and not t.keywords:
+            return kinds_of(b, t.args[0], truth, depth)
+        if isinstance(t, ast.BoolOp):
+            parts = [kinds_of(b, v, truth, depth) for v in t.values]
+            if isinstance(t.op, ast.And) == truth:
+                return set().union(*parts)            # every operand has this truth value
+            return set.intersection(*parts)           # one of them has: what all alternatives establish
+        if isinstance(t, ast.Call) and depth < 3:
+            inl = _pred_inline(repo, rd, t)             # a one-expression predicate helper: what its body establishes
+            if inl is not None:
+                return kinds_of(b, inl, truth, depth + 1)
+        k = kind(b, _canon(t, truth))
+        return {k} if k else set()
+
+    got = set()
+    syn_none = set()
+    for b, lab in view.controlling_branches(n):
+        if b.kind == "branch" or (b.kind == "loop" and isinstance(b.ast, ast.While)):
+            t = rules.expand(b.ast.test, rd.node)
+            got |= kinds_of(b, t, lab == "T")
+            raw = []
+            _decompose(t, lab == "T", raw)
+            for a, tr, ew in raw:
+                f = _canon(a, tr)
+                if not ew and f[0] == "is" and f[2] == "None" and f[1] in SYN:
+                    syn_none.add(f[1])
+    if syn_none == set(SYN):
+        got.add("cols")         # neither synonym carries a column request
+    missing = [k for k in ("binary", "rows", "cols") if k not in got]
+    return not missing, ("binary file, all rows and all columns established" if not missing else
+                         "not established: %s" % ", ".join({"binary": "the file is binary", "rows": "all rows are requested", "cols": "all columns are requested"}[k] for k in missing))
+
+
 def _r02_5_read_structural(chk, repo, F):
     rd = F["read"]
     fw = []
@@ -1966,21 +2453,29 @@ def _r02_5_read_structural(chk, repo, F):
     # the whole-table fast path is only taken when all rows and all columns are requested
     cfg = cfg_of(rd)
     view = cfg.view()
+    guards = []
     for n in cfg.nodes:
         for c in rules.stmts_calls(n):
             if call_name(c) == "_read_binary_slice":
                 ts = dict(rules.controlling_tests(view, n))
-                cond = [t for t in ts if "read_all_cols" in t and "read_all_rows" in t and " and " in t]
-                okk = bool(cond) and ts[cond[0]] == "T" and ts.get("self.is_ascii") == "F"
+                okk, why = _fast_path_guarded(repo, rd, cfg, view, n)
+                guards.append(okk)
                 chk.ob("R02.5e", rd.qualname + "::fast-path-guard", okk, rd.where(n.ast),
-                       "the single-fread path is taken only for binary files when all rows and all columns are requested (%s)" % ts)
+                       "the single-fread path is taken only for binary files when all rows and all columns are requested (%s; under %s)" % (why, ts))
                 chk.ob("R02.5e", rd.qualname + "::fast-path-slice", bool(c.args) and norm(c.args[0]) == "slice(0, self.nrows, 1)", rd.where(n.ast),
                        "the fast path reads slice(0, nrows, 1) (found %s)" % (norm(c.args[0]) if c.args else None))
     defs = {norm(x.targets[0]): norm(x.value) for x in walk_no_nested(rd.node) if isinstance(x, ast.Assign)}
-    chk.ob("R02.5e", rd.qualname + "::all-rows-definition", defs.get("read_all_rows", "").replace("(", "").replace(")", "") == "rows is None or rows.size == self.nrows",
-           rd.where(), "read_all_rows := rows is None or rows.size == nrows (rows are distinct): found %s" % defs.get("read_all_rows"))
-    chk.ob("R02.5e", rd.qualname + "::all-cols-definition", defs.get("read_all_cols", "").replace("(", "").replace(")", "") == "colnums is None or colnums.size == self.ncols",
-           rd.where(), "read_all_cols := colnums is None or colnums.size == ncols: found %s" % defs.get("read_all_cols"))
+    # (the guard instance above takes the tests apart after substituting the flags they mention: when it holds at every call of the
+    # slice reader, whatever the flags are called and however they are written, they mean "all rows" / "all columns")
+    sub = bool(guards) and all(guards)
+    chk.ob("R02.5e", rd.qualname + "::all-rows-definition",
+           defs.get("read_all_rows", "").replace("(", "").replace(")", "") == "rows is None or rows.size == self.nrows" or sub,
+           rd.where(), "read_all_rows := rows is None or rows.size == nrows (rows are distinct): found %s%s"
+           % (defs.get("read_all_rows"), " [established by the tests that guard the slice reader]" if sub else ""))
+    chk.ob("R02.5e", rd.qualname + "::all-cols-definition",
+           defs.get("read_all_cols", "").replace("(", "").replace(")", "") == "colnums is None or colnums.size == self.ncols" or sub,
+           rd.where(), "read_all_cols := colnums is None or colnums.size == ncols: found %s%s"
+           % (defs.get("read_all_cols"), " [established by the tests that guard the slice reader]" if sub else ""))
     # scalar column reduction indexes the result with the merged column name
     for n in cfg.nodes:
         a = n.ast
@@ -2195,12 +2690,18 @@ def r02_7(chk, cfun, S):
     chk.analysed_unit("Records::read_binary_slice")
     w = _cwhere(fn)
     at = "c/slice@at-data"
+    cur = None
     for key, facets, msg in (("skip-to-first-row", ["first"], "the first row transferred by the slice reader is row1"),
                              ("stride", ["stride"], "the i-th row transferred is row1 + i*step"),
                              ("row-sized-reads", ["size"], "exactly nrows whole rows are transferred into the output array")):
         if not _ev(chk, S, at, facets, "R02.7i", "Records::read_binary_slice::" + key, w, msg, scope="c/slice"):
-            if _r02_7i_structural(fn, key):
+            if cur is None:
+                cur = _r02_7i_cursor(fn)
+            if _r02_7i_structural(fn, key) and not (cur[0] is not None and not cur[0][key][0]):
                 chk.ob("R02.7i", "Records::read_binary_slice::" + key, True, w, msg + " [recognised structurally]")
+            elif cur[0] is not None:
+                chk.ob("R02.7i", "Records::read_binary_slice::" + key, cur[0][key][0], w,
+                       msg + " [file cursor followed symbolically along every path: %s]" % cur[0][key][1])
             elif key == "stride" and _r02_7i_absolute_seek(fn) is not None:
                 okabs, found = _r02_7i_absolute_seek(fn)
                 chk.ob("R02.7i", "Records::read_binary_slice::" + key, okabs, w,
@@ -2229,9 +2730,9 @@ def r02_7(chk, cfun, S):
         if fn is None:
             continue        # inlined: covered by the reader evaluations above
         done &= _ev(chk, S, "c/skips", [name], "R02.7j", "eval::Records::%s::distance" % name, _cwhere(fn), msg)
+    sem = _r02_7j_semantic(chk, cfun)
     if not done:
-        _r02_7j_structural(chk, cfun)
-    _r02_7j_semantic(chk, cfun)
+        _r02_7j_structural(chk, cfun, sem)
 
 
 def _r02_7i_absolute_seek(fn):
@@ -2280,6 +2781,354 @@ def _r02_7i_absolute_seek(fn):
                 want = S_("mFileOffset") + (S_("row1") + loopvar * S_("step")) * S_("mRowSize")
                 return (sp.expand(pos - want) == 0, str(pos))
     return None
+
+
+# ---------------------------------------------------------------------------
+# R02.7i, semantic form: where the file cursor is at every read of the slice reader, as a polynomial.
+#
+# The body is walked once per control-flow path with the cursor position counted in rows from the data offset (a sympy term over
+# row1, step, the row count): goto_offset() puts it at 0, skip_binary_rows(e) adds e (e >= 0: slices arrive normalised, 0 <= row1,
+# step >= 1), fread(p, mRowSize, k, mFptr) transfers rows [pos, pos+k) and adds k.  A counted loop whose body moves the cursor by a
+# distance d that does not depend on the round transfers, in round i, the rows at pos + i*d.  Path conditions such as `step == 1`
+# or `!(row1 > 0)` are applied as substitutions.  Names of locals, hoisted temporaries, pointer stepping of the output array and
+# the order of independent statements play no part.  Anything else that may move the cursor gives no verdict.
+# ---------------------------------------------------------------------------
+class _CurUnsup(Exception):
+    pass
+
+
+_CUR_HARMLESS_METHODS = ("ensure_readable", "ensure_binary", "ensure_writable", "process_slice")
+
+
+class _SliceCursor(object):
+    def __init__(self, fn):
+        import sympy as sp
+        from vcheck import csymx
+        self.sp = sp
+        self.csymx = csymx
+        self.fn = fn
+        self.counts = set()         # locals holding process_slice(row1, row2, step)
+        self.paths = []             # finished paths: (conditions, transfers)
+
+    # expressions ---------------------------------------------------------------------------------------------------------
+    def expr(self, L, x):
+        try:
+            return L.expr(x)
+        except Exception:
+            return None
+
+    def movers(self, x):
+        """the calls inside x that concern the file cursor, in evaluation order (inner first)"""
+        out = []
+        for c in cfront.calls_in(x):
+            nm = cfront.callee_name(c)
+            txt = cfront.render(c)
+            if c.get("kind") == "CXXMemberCallExpr" and cfront.strip(c["inner"][0]).get("kind") == "MemberExpr" \
+                    and cfront.strip(cfront.strip(c["inner"][0])["inner"][0]).get("kind") == "CXXThisExpr":
+                if nm in ("goto_offset", "skip_binary_rows"):
+                    out.append(c)
+                elif nm not in _CUR_HARMLESS_METHODS:
+                    raise _CurUnsup("call of %s" % nm)
+            elif nm == "fread":
+                out.append(c)
+            elif "mFptr" in txt and not any(cfront.callee_name(k) == "fread" and "mFptr" in cfront.render(k) for k in cfront.calls_in(c) if k is not c):
+                raise _CurUnsup("the stream is handed to %s" % nm)
+        return list(reversed(out)) if len(out) > 1 else out
+
+    def apply(self, L, st, c):
+        sp = self.sp
+        nm = cfront.callee_name(c)
+        args = cfront.call_args(c)
+        if nm == "goto_offset":
+            st["pos"] = sp.Integer(0)
+        elif nm == "skip_binary_rows":
+            e = self.expr(L, args[0]) if len(args) == 1 else None
+            if e is None:
+                raise _CurUnsup("skip distance %s" % cfront.render(c))
+            st["pos"] = st["pos"] + e
+        else:
+            if len(args) != 4 or "mFptr" not in cfront.render(args[3]):
+                raise _CurUnsup("fread form %s" % cfront.render(c))
+            size, cnt = self.expr(L, args[1]), self.expr(L, args[2])
+            if size is None or cnt is None:
+                raise _CurUnsup("fread size / count %s" % cfront.render(c))
+            st["xfer"].append(dict(start=st["pos"], n=cnt, stride=sp.Integer(1), size=size, line=c.get("line", 0)))
+            st["pos"] = st["pos"] + cnt
+
+    # statements -----------------------------------------------------------------------------------------------------------
+    def run(self):
+        sp = self.sp
+        L = self.csymx.Lower(self.fn)
+        st = dict(pos=sp.Symbol("ENTRY"), xfer=[], conds=[], env=L.env)
+        for fin in self.block(cfront.body_of(self.fn).get("inner", []) or [], [st], L):
+            self.paths.append(fin)
+        return self.paths
+
+    def block(self, stmts, states, L):
+        """states in -> states that reach the end of the statement list (returned paths are put into self.paths)"""
+        for x in stmts:
+            nxt = []
+            for st in states:
+                nxt.extend(self.stmt(x, st, L))
+            states = nxt
+            if len(states) > 16:
+                raise _CurUnsup("too many paths")
+        return states
+
+    @staticmethod
+    def _kids(x):
+        return [c for c in (x.get("inner", []) or []) if isinstance(c, dict)]
+
+    def _fork(self, st):
+        return dict(pos=st["pos"], xfer=list(st["xfer"]), conds=list(st["conds"]), env=dict(st["env"]))
+
+    def simple(self, x, st, L):
+        """an expression / declaration statement: cursor calls first, then the assignment it makes to a plain local"""
+        L.env = st["env"]
+        for c in self.movers(x):
+            self.apply(L, st, c)
+        k = x.get("kind")
+        if k == "DeclStmt":
+            for v in self._kids(x):
+                if v.get("kind") != "VarDecl":
+                    continue
+                ini = [c for c in self._kids(v) if c.get("kind")]
+                nm = v.get("name")
+                st["env"].pop(nm, None)
+                if ini and "init" in v:
+                    i0 = cfront.strip(ini[-1])
+                    if i0.get("kind") in ("CallExpr", "CXXMemberCallExpr"):
+                        if cfront.callee_name(i0) == "process_slice" and [cfront.render(a) for a in cfront.call_args(i0)] == ["row1", "row2", "step"]:
+                            self.counts.add(nm)
+                        continue                      # value of a call: stays a symbol
+                    e = self.expr(L, ini[-1])
+                    if e is not None and not any(cfront.calls_in(ini[-1])):
+                        st["env"][nm] = e
+        else:
+            for y in cfront.walk(x):
+                yk = y.get("kind")
+                tgt = None
+                if yk in ("BinaryOperator", "CompoundAssignOperator") and (y.get("opcode") == "=" or yk == "CompoundAssignOperator"):
+                    tgt = cfront.strip(self._kids(y)[0])
+                elif yk == "UnaryOperator" and y.get("opcode") in ("++", "--"):
+                    tgt = cfront.strip(self._kids(y)[0])
+                if tgt is None:
+                    continue
+                if tgt.get("kind") != "DeclRefExpr":
+                    if tgt.get("kind") == "MemberExpr":
+                        raise _CurUnsup("a member is modified: %s" % cfront.render(y))
+                    continue
+                nm = tgt["referencedDecl"]["name"]
+                if nm in ("row1", "row2", "step") or nm in self.counts:
+                    raise _CurUnsup("%s is modified" % nm)
+                if yk == "BinaryOperator" and y is cfront.strip(x) and not any(cfront.calls_in(y)):
+                    e = self.expr(L, self._kids(y)[1])
+                    if e is not None:
+                        st["env"][nm] = e
+                        continue
+                st["env"][nm] = self.sp.Symbol("%s@%s" % (nm, y.get("line", id(y))))       # some other value
+        return [st]
+
+    def stmt(self, x, st, L):
+        sp = self.sp
+        k = x.get("kind")
+        kids = self._kids(x)
+        if k == "CompoundStmt":
+            return self.block(kids, [st], L)
+        if k == "NullStmt":
+            return [st]
+        if k == "ReturnStmt":
+            self.simple(x, st, L)
+            self.paths.append(st)
+            return []
+        if k == "IfStmt":
+            cond, then = kids[0], kids[1]
+            els = kids[2] if len(kids) > 2 else None
+            self.simple(cond, st, L) if cfront.calls_in(cond) else None
+            last = then
+            while last.get("kind") == "CompoundStmt" and self._kids(last):
+                last = self._kids(last)[-1]
+            throws = cfront.strip(last).get("kind") == "CXXThrowExpr"
+            if throws:
+                if any(c for c in cfront.calls_in(then) if cfront.callee_name(c) in ("fread", "goto_offset", "skip_binary_rows")):
+                    raise _CurUnsup("cursor moved on an error path")
+                return self.stmt(els, st, L) if els is not None else [st]
+            L.env = st["env"]
+            c = self.expr(L, cond)
+            a, b = self._fork(st), self._fork(st)
+            a["conds"].append((c, True, cfront.render(cond)))
+            b["conds"].append((c, False, cfront.render(cond)))
+            out = self.stmt(then, a, L)
+            out += self.stmt(els, b, L) if els is not None else [b]
+            return out
+        if k == "ForStmt":
+            if len(kids) < 4:
+                raise _CurUnsup("for statement form")
+            init, test, inc, body = kids[0], kids[-3], kids[-2], kids[-1]
+            if any(y.get("kind") in ("BreakStmt", "ContinueStmt", "ReturnStmt", "GotoStmt") for y in cfront.walk(body)):
+                raise _CurUnsup("the loop can be left early")
+            ivar = lo = None
+            i0 = cfront.strip(init)
+            if i0.get("kind") == "DeclStmt" and len(self._kids(i0)) == 1 and "init" in self._kids(i0)[0]:
+                v = self._kids(i0)[0]
+                ivar, lo = v.get("name"), [c for c in self._kids(v) if c.get("kind")][-1]
+            elif i0.get("kind") == "BinaryOperator" and i0.get("opcode") == "=" and cfront.strip(self._kids(i0)[0]).get("kind") == "DeclRefExpr":
+                ivar, lo = cfront.strip(self._kids(i0)[0])["referencedDecl"]["name"], self._kids(i0)[1]
+            t = cfront.strip(test)
+            if ivar is None or not (t.get("kind") == "BinaryOperator" and t.get("opcode") == "<" and cfront.render(cfront.strip(self._kids(t)[0])) == ivar):
+                raise _CurUnsup("loop header %s" % cfront.render(test))
+            L.env = st["env"]
+            lo_e, hi_e = self.expr(L, lo), self.expr(L, self._kids(t)[1])
+            if lo_e is None or hi_e is None or self.movers(test) or self.movers(init):
+                raise _CurUnsup("loop bounds")
+            steps = [y for part in (inc, body) for y in cfront.walk(part)
+                     if y.get("kind") in ("UnaryOperator", "CompoundAssignOperator", "BinaryOperator")
+                     and (y.get("opcode") in ("++", "--") or y.get("kind") == "CompoundAssignOperator" or y.get("opcode") == "=")
+                     and cfront.render(cfront.strip(self._kids(y)[0])) == ivar]
+            if len(steps) != 1 or not (steps[0].get("opcode") == "++" or (steps[0].get("opcode") == "+=" and cfront.render(self._kids(steps[0])[1]) == "1")) \
+                    or not any(steps[0] is y for y in cfront.walk(inc)):
+                raise _CurUnsup("the loop counter %s is not stepped by one in the loop header only" % ivar)
+            i = sp.Symbol(ivar, integer=True)
+            P = sp.Symbol("ROUNDSTART")
+            inner = dict(pos=P, xfer=[], conds=[], env=dict(st["env"]))
+            inner["env"][ivar] = i
+            ends = self.block([body, inc], [inner], L)
+            if len(ends) != 1:
+                raise _CurUnsup("the loop body branches")
+            e = ends[0]
+            d = sp.expand(e["pos"] - P)
+            if d.has(P) or d.has(i) or any(str(sy).find("@") >= 0 for sy in d.free_symbols):
+                raise _CurUnsup("the distance moved per round, %s, depends on the round" % d)
+            n = sp.expand(hi_e - lo_e)
+            for xf in e["xfer"]:
+                off = sp.expand(xf["start"] - P)
+                if off.has(P) or off.has(i) or xf["n"] != 1:
+                    raise _CurUnsup("read inside the loop at %s, %s rows" % (xf["start"], xf["n"]))
+                st["xfer"].append(dict(start=st["pos"] + off, n=n, stride=d, size=xf["size"], line=xf["line"]))
+            st["pos"] = st["pos"] + n * d
+            # what the body assigned is not known after the loop
+            for nm in set(e["env"]) | set(st["env"]):
+                if e["env"].get(nm) != st["env"].get(nm) and nm != ivar:
+                    st["env"][nm] = sp.Symbol("%s@after%s" % (nm, x.get("line", "")))
+            st["env"].pop(ivar, None)
+            return [st]
+        if k == "WhileStmt":
+            # while (v > 0) { ...; v--; }  with v a local holding a known value e: e rounds
+            # while (v < n) { ...; v++; }  : n - (value of v) rounds
+            cond, body = kids[0], kids[-1]
+            if any(y.get("kind") in ("BreakStmt", "ContinueStmt", "ReturnStmt", "GotoStmt") for y in cfront.walk(body)) or self.movers(cond):
+                raise _CurUnsup("the loop can be left early")
+            t = cfront.strip(cond)
+            if not (t.get("kind") == "BinaryOperator" and t.get("opcode") in ("<", ">")):
+                raise _CurUnsup("loop condition %s" % cfront.render(cond))
+            l, r = (cfront.strip(y) for y in self._kids(t))
+            if t["opcode"] == ">":
+                l, r = r, l                                  # l < r
+            top = self._kids(body) if body.get("kind") == "CompoundStmt" else [body]
+
+            def step_of(y, v):
+                y = cfront.strip(y)
+                if y.get("kind") == "UnaryOperator" and y.get("opcode") in ("++", "--") and cfront.render(cfront.strip(self._kids(y)[0])) == v:
+                    return y["opcode"][0]
+                if y.get("kind") == "CompoundAssignOperator" and y.get("opcode") in ("+=", "-=") and cfront.render(cfront.strip(self._kids(y)[0])) == v \
+                        and cfront.render(cfront.strip(self._kids(y)[1])) == "1":
+                    return y["opcode"][0]
+                return None
+
+            def writes(v):
+                return [y for y in cfront.walk(body) if y.get("kind") in ("UnaryOperator", "CompoundAssignOperator", "BinaryOperator")
+                        and (y.get("opcode") in ("++", "--", "=") or y.get("kind") == "CompoundAssignOperator")
+                        and cfront.render(cfront.strip(self._kids(y)[0])) == v]
+
+            L.env = st["env"]
+            var = n = None
+            if l.get("kind") == "IntegerLiteral" and l.get("value") == "0" and r.get("kind") == "DeclRefExpr":
+                var, want = cfront.render(r), "-"
+                n = st["env"].get(var)
+            elif l.get("kind") == "DeclRefExpr":
+                var, want = cfront.render(l), "+"
+                hi = self.expr(L, r)
+                lo = st["env"].get(var)
+                n = sp.expand(hi - lo) if hi is not None and lo is not None else None
+                if any(writes(nm) for nm in [str(sy) for sy in (hi.free_symbols if hi is not None else [])]):
+                    n = None
+            if var is None or n is None or var in ("row1", "row2", "step") or var in self.counts:
+                raise _CurUnsup("loop condition %s: number of rounds not known" % cfront.render(cond))
+            stepst = [y for y in top if step_of(y, var)]
+            if len(stepst) != 1 or step_of(stepst[0], var) != want or len(writes(var)) != 1:
+                raise _CurUnsup("the loop counter %s is not stepped exactly once per round" % var)
+            i = sp.Symbol("round", integer=True)
+            P = sp.Symbol("ROUNDSTART")
+            inner = dict(pos=P, xfer=[], conds=[], env=dict(st["env"]))
+            inner["env"][var] = sp.Symbol("%s@round" % var)
+            ends = self.block([y for y in top if y is not stepst[0]], [inner], L)
+            if len(ends) != 1:
+                raise _CurUnsup("the loop body branches")
+            e = ends[0]
+            d = sp.expand(e["pos"] - P)
+            if d.has(P) or any("@" in str(sy) for sy in d.free_symbols):
+                raise _CurUnsup("the distance moved per round, %s, depends on the round" % d)
+            for xf in e["xfer"]:
+                off = sp.expand(xf["start"] - P)
+                if off.has(P) or any("@" in str(sy) for sy in off.free_symbols) or xf["n"] != 1:
+                    raise _CurUnsup("read inside the loop at %s, %s rows" % (xf["start"], xf["n"]))
+                st["xfer"].append(dict(start=st["pos"] + off, n=n, stride=d, size=xf["size"], line=xf["line"]))
+            st["pos"] = st["pos"] + n * d
+            for nm in set(e["env"]) | set(st["env"]):
+                if e["env"].get(nm) != st["env"].get(nm):
+                    st["env"][nm] = sp.Symbol("%s@after%s" % (nm, x.get("line", "")))
+            return [st]
+        if k in ("DoStmt", "SwitchStmt", "GotoStmt", "LabelStmt", "CXXTryStmt", "CXXForRangeStmt", "BreakStmt", "ContinueStmt"):
+            raise _CurUnsup("%s in the slice reader" % k)
+        return self.simple(x, st, L)
+
+    # verdicts ------------------------------------------------------------------------------------------------------------------
+    def verdicts(self):
+        """{key: (True/False, text)} for 'skip-to-first-row', 'stride', 'row-sized-reads'"""
+        sp = self.sp
+        row1, step = sp.Symbol("row1"), sp.Symbol("step")
+        res = {"skip-to-first-row": [], "stride": [], "row-sized-reads": []}
+        if not self.paths:
+            raise _CurUnsup("no path through the slice reader")
+        for pth in self.paths:
+            sub = {}
+            for c, truth, txt in pth["conds"]:
+                if c is None:
+                    continue
+                if truth and isinstance(c, sp.Equality) and c.lhs.is_Symbol and c.rhs.is_number:
+                    sub[c.lhs] = c.rhs
+                elif not truth and isinstance(c, sp.Unequality) and c.lhs.is_Symbol and c.rhs.is_number:
+                    sub[c.lhs] = c.rhs
+                elif c.is_Relational and c.lhs == row1 and c.rhs == 0 and ((not truth and isinstance(c, sp.StrictGreaterThan)) or (truth and isinstance(c, sp.LessThan))):
+                    sub[row1] = sp.Integer(0)            # 0 <= row1 (normalised slice) and not row1 > 0
+            if len(pth["xfer"]) != 1:
+                raise _CurUnsup("%d read sites on one path" % len(pth["xfer"]))
+            xf = pth["xfer"][0]
+            under = " and ".join(("" if tr else "not ") + t for _, tr, t in pth["conds"]) or "always"
+            start = sp.expand(sp.sympify(xf["start"]).subs(sub))
+            stride = sp.expand(sp.sympify(xf["stride"]).subs(sub))
+            n = sp.sympify(xf["n"]).subs(sub)
+            if any("@" in str(sy) for e in (start, stride, n) for sy in sp.sympify(e).free_symbols):
+                raise _CurUnsup("a position depends on a value that is not followed")
+            res["skip-to-first-row"].append((sp.expand(start - row1.subs(sub)) == 0, "first row read is %s (%s)" % (start, under)))
+            res["stride"].append((sp.expand(stride - step.subs(sub)) == 0, "consecutive reads are %s rows apart (%s)" % (stride, under)))
+            res["row-sized-reads"].append((str(xf["size"]) == "mRowSize" and n.is_Symbol and str(n) in self.counts,
+                                           "%s reads of %s bytes (%s)" % (n, xf["size"], under)))
+        return {k: (all(ok for ok, _ in v), "; ".join(t for _, t in v)) for k, v in res.items()}
+
+
+def _r02_7i_cursor(fn):
+    """verdicts of the cursor analysis of the slice reader, or (None, reason)"""
+    try:
+        an = _SliceCursor(fn)
+        an.run()
+        return an.verdicts(), None
+    except _CurUnsup as e:
+        return None, str(e)
+    except AnalysisError:
+        raise
+    except Exception as e:        # a defect of the analysis must never become a verdict
+        return None, "analysis failed: %s: %s" % (type(e).__name__, e)
 
 
 def _r02_7i_structural(fn, key):
@@ -2947,9 +3796,10 @@ class _SkipCount(object):
 
 
 def _r02_7j_semantic(chk, cfun):
+    """reports the instance; returns (True, counter names) when it holds, else (None / False, ())"""
     fn = cfun.get("Records::skip_text_rows")
     if fn is None:
-        return
+        return None, ()
     key = "sem::Records::skip_text_rows::row-counted-iff-newline-consumed"
     msg = "the text row skipper advances its row counter exactly when it has consumed that row's newline"
     try:
@@ -2957,12 +3807,12 @@ def _r02_7j_semantic(chk, cfun):
         ctr, neg, pos = an.run()
     except _SkUnsup as e:
         chk.ob("R02.7j", key, None, _cwhere(fn), "%s (not recognised: %s)" % (msg, e))
-        return
+        return None, ()
     except AnalysisError:
         raise
     except Exception as e:            # a defect of the analysis must never become a verdict
         chk.ob("R02.7j", key, None, _cwhere(fn), "%s (analysis failed: %s: %s)" % (msg, type(e).__name__, e))
-        return
+        return None, ()
     chk.assume("the rows to skip exist in the file (row selections are range checked): reads inside the skipped region do not hit EOF")
     if neg and not an.imprecise:
         chk.ob("R02.7j", key, False, _cwhere(fn),
@@ -2976,9 +3826,89 @@ def _r02_7j_semantic(chk, cfun):
         chk.ob("R02.7j", key, True, _cwhere(fn),
                "%s: at every return the number of steps of %s equals the number of newlines consumed (reads: %s)"
                % (msg, ctr[0], ", ".join(sorted({s["text"] for s in an.sites.values()}))))
+        return True, tuple(ctr)
+    return (False if neg and not an.imprecise else None), ()
 
 
-def _r02_7j_structural(chk, cfun):
+def _skip_total_is_nskip(fn, counters):
+    """does the row skipper leave its loop after exactly <number of rows to skip> steps of its row counter?  Recognised: one loop,
+    left only through its condition (no break / return / goto inside), with a single step of the counter in it, counting
+      up:    counter starts at 0, steps +1, the loop runs while counter < N
+      down:  counter starts at N (or is N), steps -1, the loop runs while counter > 0
+    where N is the parameter, which is not assigned otherwise.  Returns (True, text) / (None, why not recognised)."""
+    params = [p for p in cfront.params_of(fn) if p]
+    body = cfront.body_of(fn)
+    if len(params) != 1 or len(counters) != 1:
+        return None, "expected one parameter and one row counter (%s; %s)" % (params, list(counters))
+    N, c = params[0], counters[0]
+    loops = [x for x in cfront.walk(body) if x.get("kind") in ("ForStmt", "WhileStmt", "DoStmt")]
+    if len(loops) != 1 or loops[0].get("kind") == "DoStmt":
+        return None, "expected a single while / for loop"
+    lp = loops[0]
+    parts = [x for x in (lp.get("inner", []) or []) if isinstance(x, dict)]
+    if lp.get("kind") == "ForStmt":
+        if len(parts) != 5:
+            return None, "for loop not understood"
+        init, cond, loopbody = parts[0], parts[2], [parts[3], parts[4]]
+    else:
+        init, cond, loopbody = None, parts[0], [parts[-1]]
+    inside = [y for part in loopbody for y in cfront.walk(part)]
+    if any(y.get("kind") in ("BreakStmt", "ReturnStmt", "GotoStmt") for y in inside):
+        return None, "the loop can be left other than through its condition"
+
+    def writes(x, v):
+        """'+' / '-' for a step of v by one, 'w' for any other write of v, None"""
+        k = x.get("kind")
+        if k == "UnaryOperator" and x.get("opcode") in ("++", "--") and _sk_name(_sk_inner(x)[0]) == v:
+            return "+" if x["opcode"] == "++" else "-"
+        if k == "CompoundAssignOperator" and _sk_name(_sk_inner(x)[0]) == v:
+            return {"+=": "+", "-=": "-"}.get(x.get("opcode"), "w") if _sk_const(_sk_inner(x)[1]) == 1 else "w"
+        if k == "BinaryOperator" and x.get("opcode") == "=" and _sk_name(_sk_inner(x)[0]) == v:
+            r = cfront.strip(_sk_inner(x)[1])
+            if r.get("kind") == "BinaryOperator" and r.get("opcode") in ("+", "-"):
+                a, b = _sk_inner(r)
+                if _sk_name(a) == v and _sk_const(b) == 1:
+                    return r["opcode"]
+                if r["opcode"] == "+" and _sk_name(b) == v and _sk_const(a) == 1:
+                    return "+"
+            return "w"
+        if k == "UnaryOperator" and x.get("opcode") == "&" and _sk_name(_sk_inner(x)[0]) == v:
+            return "w"
+        return None
+
+    steps = [w for y in inside + list(cfront.walk(cond)) for w in [writes(y, c)] if w]
+    if len(steps) != 1 or steps[0] == "w" or any(writes(y, c) for y in cfront.walk(cond)):
+        return None, "the counter %s is not stepped exactly once per round of the loop" % c
+    outside = [y for y in cfront.walk(body) if id(y) not in {id(z) for z in inside} and id(y) not in {id(z) for z in cfront.walk(cond)}]
+    if c != N and any(writes(y, N) for y in cfront.walk(body)):
+        return None, "the number of rows to skip, %s, is modified" % N
+    starts = []
+    for y in outside:
+        if y.get("kind") == "VarDecl" and y.get("name") == c and "init" in y and _sk_inner(y):
+            starts.append(cfront.strip(_sk_inner(y)[-1]))
+        elif writes(y, c):
+            if y.get("kind") == "BinaryOperator" and y.get("opcode") == "=":
+                starts.append(cfront.strip(_sk_inner(y)[1]))
+            else:
+                return None, "the counter %s is modified outside the loop" % c
+    cc = cfront.strip(cond)
+    rel = None
+    if cc.get("kind") == "BinaryOperator" and cc.get("opcode") in ("<", ">"):
+        l, r = (cfront.strip(x) for x in _sk_inner(cc))
+        if cc["opcode"] == ">":
+            l, r = r, l
+        rel = (l, r)                  # l < r
+    if rel is None:
+        return None, "loop condition %s not understood" % cfront.render(cond)
+    l, r = rel
+    if steps[0] == "+":
+        ok = len(starts) == 1 and _sk_const(starts[0]) == 0 and _sk_name(l) == c and _sk_name(r) == N and c != N
+        return (True, "%s counts from 0 up while %s < %s" % (c, c, N)) if ok else (None, "counting up, but not from 0 while %s < %s" % (c, N))
+    ok = _sk_const(l) == 0 and _sk_name(r) == c and ((c == N and not starts) or (c != N and len(starts) == 1 and _sk_name(starts[0]) == N))
+    return (True, "%s counts from %s down while %s > 0" % (c, N, c)) if ok else (None, "counting down, but not from %s while %s > 0" % (N, c))
+
+
+def _r02_7j_structural(chk, cfun, sem=None):
     sk = cfun.get("Records::skip_binary_rows")
     if sk is not None:
         okk = any(cfront.render(c).replace(" ", "") in ("myfseeko(mFptr,(mRowSize*nskip),1)", "myfseeko(mFptr,(nskip*mRowSize),1)") for c in cfront.calls_in(sk))
@@ -2995,8 +3925,18 @@ def _r02_7j_structural(chk, cfun):
     st = cfun.get("Records::skip_text_rows")
     if st is not None:
         txt = [cfront.render(x) for x in cfront.walk(cfront.body_of(st)) if x.get("kind") in ("BinaryOperator",) and x.get("opcode") in ("<", "==")]
-        chk.ob("R02.7j", "Records::skip_text_rows::counts-newlines", "(nlines < nskip)" in txt and any("'\\n'" in t for t in txt), _cwhere(st),
-               "skipping text rows counts newline characters until nskip lines passed (%s)" % txt)
+        okk = "(nlines < nskip)" in txt and any("'\\n'" in t for t in txt)
+        how = str(txt)
+        if not okk and sem and sem[0] is True:
+            # other spellings of the loop: the counter steps exactly once per newline consumed (semantic instance above) and the loop
+            # ends after exactly nskip steps
+            tot, why = _skip_total_is_nskip(st, sem[1])
+            if tot:
+                okk, how = True, "the row counter steps exactly with the newlines consumed, and %s" % why
+            else:
+                how += "; " + why
+        chk.ob("R02.7j", "Records::skip_text_rows::counts-newlines", okk, _cwhere(st),
+               "skipping text rows counts newline characters until nskip lines passed (%s)" % how)
 
 
 
